@@ -77,7 +77,7 @@ def verus_replay(prop, unit_res, fl, repo, work, seed, preset=None):
     return {'path': path, 'has_input': rep['failing_input'] is not None}
 
 
-def kani_replay(prop, hm, r, base, dst):
+def kani_replay(prop, hm, r, base, dst, repo=None, work=None, seed=0):
     rep = {'property': prop, 'unit': hm.get('unit'), 'failed_obligation': '%s/%s' % (hm.get('unit'), hm['name']),
            'backend': 'kani+cbmc', 'failed_checks': r['failed_checks'], 'harness': hm['name'], 'kind': hm['kind'],
            'bound': hm.get('bound'), 'failing_input': None, 'rerun': 'cd /verif && ./check %s' % prop}
@@ -91,6 +91,13 @@ def kani_replay(prop, hm, r, base, dst):
     except Exception as e:  # playback trouble must not hide the violation
         rep['playback_error'] = repr(e)
     path = os.path.join(VERIF, 'replays', '%s-%s.json' % (prop, _safe(hm['name'])))
+    if rep['failing_input'] is None and hm.get('oracle') and repo and work:
+        o = run_oracle(hm['oracle'], seed, repo, work)
+        rep['native_oracle'] = o
+        if o.get('failing_input'):
+            rep['failing_input'] = o['failing_input']
+            rep['observed'] = o.get('observed')
+            rep['expected'] = o.get('expected')
     if rep['failing_input'] is None:
         rep['note'] = 'no-failing-input-found: CBMC refuted the obligation but no concrete playback was produced'
     json.dump(rep, open(path, 'w'), indent=1)
